@@ -51,7 +51,7 @@ ASSUMPTIONS = ['arguments are nodes (not plain str); every node is created by th
                'operations that make the Python loop iterate a list it extends (fragment into itself) are not executed on the real code',
                'a history stops (both sides answer `cyclic`) as soon as a node becomes its own descendant; generators avoid such operations',
                'editing theorems assume no attributes[self] aliasing (NoAlias); histories with aliasing are compared with the model and a Python oracle only']
-RULE = ('the implementation runner reads the derived views (textContent, getElementsByTagName, first/last child, siblings) of every reachable node after every operation of a history, so a view that remembers an earlier answer shows up in the final observation; '
+RULE = ('the implementation runner reads the derived views (textContent, getElementsByTagName, first/last child, siblings) of every reachable node after every operation of a history, so a view that remembers an earlier answer shows up in the final observation; every history is also executed a second time on fresh objects without any read before the end (reading childNodes creates the child list of an element that never had one, and normalize / cloneNode / the self attribute treat such elements differently), and that run is judged too; '
         'oracles besides the list model: at every cloneNode(True) the clone must be == its original (both directions, isEqualNode) and share no node with it; after every normalize no two text nodes may be adjacent anywhere below the node, attribute-held fragments included; an attributes[self] fragment must list exactly the children of its element and belong to one element only; '
         'exhaustive: breadth-first over all pool operations, histories reaching an already seen full observation are not extended; random: seeded '
         'histories to length 40 with ~15% malformed operations (out-of-range indexes, attached arguments, absent references); '
@@ -361,7 +361,9 @@ class World:
             visit(x)
         return seen
 
-    def dump(self, err):
+    def dump(self, err, light=False):
+        """the final observation; `light`: only what is stored (labels, child lists, parent, owner, attribute fragments,
+        flags), none of the derived views -- see `_light`"""
         D = self.D
         ordl = self.order()
         ix = {id(x): i for i, x in enumerate(ordl)}
@@ -383,6 +385,10 @@ class World:
             else:
                 kind = {D.Node.DOCUMENT_NODE: 'D', D.Node.ELEMENT_NODE: 'E', D.Node.DOCUMENT_FRAGMENT_NODE: 'F'}[t]
                 head = kind + (n.nodeName[1:] if kind == 'E' else '0') + '.'
+            if light:
+                out.append('%s:%s:%s:%s:%s:%s' % (head, L(self.kids(n)), I(n.parentNode), I(n.ownerDocument),
+                                                  I(self.attr_node(n, 'self')), I(self.attr_node(n, 'title'))))
+                continue
             try:
                 tc = chars(str.__str__(n.textContent))
                 g0 = L(n.getElementsByTagName('n0')); g1 = L(n.getElementsByTagName('n1'))
@@ -400,6 +406,8 @@ class World:
                 head, L(self.kids(n)), I(n.parentNode), I(n.ownerDocument),
                 V(lambda: n.firstChild), V(lambda: n.lastChild), V(lambda: n.previousSibling), V(lambda: n.nextSibling), tc, g0, g1,
                 I(self.attr_node(n, 'self')), I(self.attr_node(n, 'title'))))
+        if light:
+            return '%s %s @ %s' % (err, ' '.join(out), ' '.join(self.flags))
         sub = ordl[:7]
         rows = []
         for a in sub:
@@ -453,16 +461,22 @@ def run_history(line, peek=False):
     return w, err
 
 
-def impl(case, aux):
+def _light(dump):
+    """the stored part of a full observation (what `World.dump(err, light=True)` prints)"""
+    e, nodes, _, flags = _parse_dump(dump)
+    return '%s %s @ %s' % (e, ' '.join(':'.join(f[:4] + f[-2:]) for f in nodes), ' '.join(flags))
+
+
+def _observe(line, peek, like=None):
     D = _dom()
     D.CharacterData._dummyChildNodes[:] = []
-    w, err = run_history(case.line, peek=True)
+    w, err = run_history(line, peek=peek)
     if err == 'timeout':
         # confirm with a fresh world and a four times longer limit before calling it a hang
         D.CharacterData._dummyChildNodes[:] = []
         OP_LIMIT['seconds'] = 2.0
         try:
-            w, err = run_history(case.line, peek=True)
+            w, err = run_history(line, peek=peek)
         finally:
             OP_LIMIT['seconds'] = 0.5
         if err == 'timeout':
@@ -471,7 +485,30 @@ def impl(case, aux):
         return 'cyclic'
     if err == 'bad':
         return 'invalid'          # not a history the model is meant for (e.g. `sa` on an element whose child list exists)
+    if like is not None and w.dump(err, light=True) == like:
+        return None               # stores the same as the other run: the derived views at the end are the same reads
     return w.dump(err)
+
+
+def impl(case, aux):
+    """every history is executed twice on fresh objects: once reading the derived views of every reachable node after
+    every operation (a view that remembers an earlier answer shows up) and once reading nothing before the end (reading
+    `childNodes` creates the child list of an element that never had one, and the real code behaves differently for such
+    elements: `hasChildNodes()` in normalize / cloneNode, the `self` attribute).  Both runs are judged: the observation of
+    the run without reads is reported when the run with reads is not a valid history or when it shows a problem itself;
+    two valid runs that differ otherwise are reported as such (flag r0)."""
+    b = _observe(case.line, True)
+    a = _observe(case.line, False, like=_light(b) if ' ' in b else None)
+    if a is None or a == b or a in ('invalid', 'cyclic') or b == 'cyclic':
+        return b
+    if b == 'invalid' or a.startswith('err:'):
+        return a
+    if b.startswith('err:'):
+        return b
+    _, anodes, _, aflags = _parse_dump(a)
+    if oracle_problem(anodes) or flags_problem(aflags):
+        return a
+    return b + (' ' if not b.endswith(' ') else '') + 'r0'
 
 
 # ---------------------------------------------------------------- judging
@@ -565,6 +602,8 @@ def flags_problem(flags):
                 return 'deep clone #%d shares a node with its original' % k
         elif fl == 'n0':
             return 'normalize #%d left adjacent text nodes below the node (child lists and attribute-held fragments)' % k
+        elif fl == 'r0':
+            return 'the same history gives a different final observation when the derived views are read after every operation than when nothing is read before the end'
     return ''
 
 
